@@ -7,13 +7,23 @@ Prints a JSON summary."""
 import json, os, shutil, subprocess, sys, tempfile, xml.etree.ElementTree as ET
 
 prop, patch, demo = sys.argv[1:4]
+# some seeds were written against a tree that a later fix: commit has since changed at the very
+# lines they touch; those are verified on their recorded base commit (seeded/bases.json)
+BASES = {}
+try:
+    BASES = json.load(open('/verif/seeded/bases.json'))
+except Exception:
+    pass
+_key = os.path.basename(os.path.dirname(patch)).replace('-out', '') + '/' + ''.join(ch for ch in os.path.basename(patch) if ch.isdigit())
+BASE = BASES.get(_key, 'HEAD')
 wt = tempfile.mkdtemp(prefix=f"seedcheck-{prop}-", dir="/tmp")
 os.rmdir(wt)
 def sh(cmd, **kw):
     return subprocess.run(cmd, shell=True, stdout=subprocess.PIPE, stderr=subprocess.STDOUT, text=True, **kw)
 res = {"property": prop, "patch": patch}
 try:
-    r = sh(f"git -C /repo worktree add -q --detach {wt} HEAD")
+    r = sh(f"git -C /repo worktree add -q --detach {wt} {BASE}")
+    res["base"] = BASE
     assert r.returncode == 0, r.stdout
     shutil.copy(demo, os.path.join(wt, "_demo.py"))
     r = sh("/venv/bin/python _demo.py", cwd=wt); res["demo_clean_rc"] = r.returncode
